@@ -1,4 +1,3 @@
-use futures::{FutureExt, future::BoxFuture};
 use std::{
     mem,
     sync::{Arc, Mutex, Weak},
@@ -242,7 +241,8 @@ impl ChannelCreditMonitor {
 pub(crate) struct ChannelCreditReturner {
     monitor: Weak<Mutex<ChannelCreditMonitorInner>>,
     to_return: u32,
-    return_fut: Option<BoxFuture<'static, ()>>,
+    /// Credit return message that could not be queued yet.
+    return_msg: Option<PortEvt>,
 }
 
 impl ChannelCreditReturner {
@@ -250,7 +250,7 @@ impl ChannelCreditReturner {
     ///
     /// return_flush must have been called before this function is called.
     pub fn start_return(&mut self, credit: UsedCredit, remote_port: u32, tx: &mpsc::Sender<PortEvt>) {
-        assert!(self.return_fut.is_none(), "start_return called without return_flush");
+        assert!(self.return_msg.is_none(), "start_return called without return_flush");
 
         if let Some(monitor) = self.monitor.upgrade() {
             let mut monitor = monitor.lock().unwrap();
@@ -269,23 +269,26 @@ impl ChannelCreditReturner {
                 self.to_return = 0;
 
                 if let Err(TrySendError::Full(msg)) = tx.try_send(msg) {
-                    let tx = tx.clone();
-                    self.return_fut = Some(
-                        async move {
-                            let _ = tx.send(msg).await;
-                        }
-                        .boxed(),
-                    );
+                    self.return_msg = Some(msg);
                 }
             }
         }
     }
 
     /// Completes returning of credits.
-    pub async fn return_flush(&mut self) {
-        if let Some(return_fut) = &mut self.return_fut {
-            return_fut.await;
-            self.return_fut = None;
+    ///
+    /// This is cancel safe: no position in the queue is held when this future is dropped,
+    /// so that an abandoned receive operation cannot starve other users of the queue.
+    pub async fn return_flush(&mut self, tx: &mpsc::Sender<PortEvt>) {
+        if self.return_msg.is_some() {
+            match tx.reserve().await {
+                Ok(permit) => {
+                    if let Some(msg) = self.return_msg.take() {
+                        permit.send(msg);
+                    }
+                }
+                Err(_) => self.return_msg = None,
+            }
         }
     }
 }
@@ -293,7 +296,7 @@ impl ChannelCreditReturner {
 /// A pair of ChannelCreditMonitor and ChannelCreditReturner.
 pub(crate) fn credit_monitor_pair(limit: u32) -> (ChannelCreditMonitor, ChannelCreditReturner) {
     let monitor = ChannelCreditMonitor(Arc::new(Mutex::new(ChannelCreditMonitorInner { used: 0, limit })));
-    let returner = ChannelCreditReturner { monitor: Arc::downgrade(&monitor.0), to_return: 0, return_fut: None };
+    let returner = ChannelCreditReturner { monitor: Arc::downgrade(&monitor.0), to_return: 0, return_msg: None };
     (monitor, returner)
 }
 
